@@ -16,7 +16,7 @@ static u64 n_calls, n_files, n_reads, n_short;
 
 static void one_case(const u8* content, size_t n, int thorough)
 {
-    LZ4F_preferences_t prefs; LZ4_writeFile_t* w = NULL; LZ4_readFile_t* rd = NULL; FILE* fp = tmpfile(); rec_t r; size_t pos = 0; size_t res; u8* filebytes; long fsz; int useNull = rndp(10);
+    u8* ops = xalloc(5 * (n + 2)); size_t nops = 0; LZ4F_preferences_t prefs; LZ4_writeFile_t* w = NULL; LZ4_readFile_t* rd = NULL; FILE* fp = tmpfile(); rec_t r; size_t pos = 0; size_t res; u8* filebytes; long fsz; int useNull = rndp(10);
     static const int levels[] = {0, 0, 1, 3, 9, 12, -2};
     memset(&prefs, 0, sizeof prefs);
     if (!useNull) { prefs.frameInfo.blockSizeID = (LZ4F_blockSizeID_t)(rndp(40) ? 0 : 4 + rndn(n > 300000 ? 4 : 2)); prefs.frameInfo.blockMode = (LZ4F_blockMode_t)rndn(2); prefs.frameInfo.contentChecksumFlag = (LZ4F_contentChecksum_t)rndn(2);
@@ -28,7 +28,7 @@ static void one_case(const u8* content, size_t n, int thorough)
     cur_set(&r);
     if (!fp) { perror("tmpfile"); exit(3); }
     res = LZ4F_writeOpen(&w, fp, useNull ? NULL : &prefs); n_calls++;
-    if (LZ4F_isError(res)) { c_fail(&r, "writeOpen_failed"); fclose(fp); return; }
+    if (LZ4F_isError(res)) { c_fail(&r, "writeOpen_failed"); fclose(fp); free(ops); return; }
     while (pos < n) {   /* any sequence of write sizes */
         size_t chunk; u8* tmp;
         switch (rndn(6)) { case 0: chunk = 1; break; case 1: chunk = 1 + rndn(20); break; case 2: chunk = 65536 + rndn(3) - 1; break; case 3: chunk = n - pos; break; default: chunk = 1 + rndn(5000); }
@@ -36,13 +36,14 @@ static void one_case(const u8* content, size_t n, int thorough)
         tmp = xalloc(chunk); memcpy(tmp, content + pos, chunk);
         res = LZ4F_write(w, tmp, chunk); n_calls++; free(tmp);
         if (LZ4F_isError(res) || res != chunk) { c_fail(&r, "write_failed"); break; }
+        ops[nops] = 119; ops[nops+1] = (u8)chunk; ops[nops+2] = (u8)(chunk >> 8); ops[nops+3] = (u8)(chunk >> 16); ops[nops+4] = (u8)(chunk >> 24); nops += 5;
         pos += chunk;
     }
     res = LZ4F_writeClose(w); n_calls++;
     if (LZ4F_isError(res)) c_fail(&r, "writeClose_failed");
     fflush(fp); fsz = ftell(fp); rewind(fp);
     filebytes = xalloc((size_t)fsz); if (fread(filebytes, 1, (size_t)fsz, fp) != (size_t)fsz) { perror("fread"); exit(3); }
-    r.n -= 1; rec_bytes(&r, filebytes, (size_t)fsz);
+    r.n -= 1; rec_bytes(&r, filebytes, (size_t)fsz); rec_bytes(&r, ops, nops);
     n_files++; if (fsz < 19) n_short++;
     /* read back with any sequence of read sizes */
     {   int rep, nrep = thorough ? 3 : 2;
@@ -67,7 +68,7 @@ static void one_case(const u8* content, size_t n, int thorough)
             LZ4F_readClose(rd); free(out);
         }
     }
-    cur_clear(); rec_write(&r); free(filebytes); fclose(fp);
+    cur_clear(); rec_write(&r); free(filebytes); free(ops); fclose(fp);
 }
 
 int main(int argc, char** argv)
